@@ -213,7 +213,7 @@ def timer_script(rng, n, style="jittery"):
     return out
 
 
-def api_case_ops(kind, walk, rng, with_twin=True, rounds=None):
+def api_case_ops(kind, walk, rng, with_twin=True, rounds=None, seed=None):
     """ops of one case: twin (native calls only), then the instance under test driven by `walk`"""
     wb = WORDBYTES[kind]
     N = words_needed(walk, wb)
@@ -230,7 +230,7 @@ def api_case_ops(kind, walk, rng, with_twin=True, rounds=None):
         ops.append({"op": "jit_new", "g": 1, "t": 1})
         ops.append({"op": "set_rounds", "g": 1, "r": r})
     else:
-        sd = [rng.getrandbits(8) for _ in range(SEEDLEN[kind])]
+        sd = seed if seed is not None else [rng.getrandbits(8) for _ in range(SEEDLEN[kind])]
         ops.append({"op": "from_seed", "g": 2, "kind": kind, "seed": sd})
         ops.append({"op": nat, "g": 2, "n": N, "role": "twin", "of": 1})
         if kind == "SplitMix64":
@@ -386,6 +386,22 @@ def stuck_run_cases(S, rng, ns, rounds):
                     {"op": "set_rounds", "g": 1, "r": rounds}, {"op": "next_u64", "g": 1}, {"op": "next_u32", "g": 1}], weight=20 + n_stuck // 3 + rounds)
 
 
+def zero_reading_cases(S, rng):
+    """a timer reading of exactly 0 at the priming position of a collection, as a time stamp, as a loop-count draw: the
+    collection procedure has no special case for it (only test_timer has)"""
+    for pos in (0, 10, 11, 12, 13, 14, 20):
+        t = rng.getrandbits(40) + (1 << 34)
+        rd = []
+        for k in range(80):
+            t += 59 + 14 * k + (k * k) % 11
+            rd.append(t)
+        rd[pos] = 0
+        S.case("jitter reading number %d is 0" % pos,
+               [{"op": "timer", "t": 1, "readings": [u64(x) for x in rd], "cont": CONT}, {"op": "jit_new", "g": 1, "t": 1}, {"op": "set_rounds", "g": 1, "r": 2},
+                {"op": "next_u64", "g": 1}, {"op": "next_u64", "g": 1}, {"op": "next_u32", "g": 1}, {"op": "clone", "g": 1, "to": 2}, {"op": "next_u32", "g": 2},
+                {"op": "next_u32", "g": 1}, {"op": "next_u64", "g": 1}], weight=60)
+
+
 def c12_corpus(seed, tier):
     rng = random.Random(seed * 1000003 + 12)
     S = Sched()
@@ -435,6 +451,7 @@ def c12_corpus(seed, tier):
     stuck_run_cases(S, rng, (70, 260, 1030, 4100, 65600) if tier == "quick" else (64, 65, 70, 130, 255, 256, 260, 1030, 4100, 32800, 65535, 65536, 65600), 3)
     for r in (1, 127, 128, 254, 255):       # the extreme round counts (u8)
         stuck_run_cases(S, rng, (3,), r)
+    zero_reading_cases(S, rng)
     # the one documented panic
     sc = jitter_script(rng, [("random", 100)])
     S.case("jitter set_rounds(0)", [{"op": "timer", "t": 1, "readings": [u64(x) for x in sc], "cont": CONT},
@@ -886,10 +903,33 @@ def c15_schedule(seed, tier):
     for k in range(1200):
         t = (t + rng.choice([0, 1, 17, 100, 101, 977, 4099, rng.getrandbits(20), rng.getrandbits(33)])) & M64
         readings.append(t)
+    # the fold while the high half of a value is still owed (timer_stats between the two next_u32 of a pair): the same
+    # bijection of the whole 64-bit pool, in the pool ("lh") and in the time value ("th")
+    S.nx_readings = readings[nx_at[0]:]
+    h_at = len(readings)
+    for k in range(1 + 3 * 2):          # one collection with rounds = 1: priming reading + 2 measurements
+        t = (t + 1000 + 37 * k + (k * k) % 13) & M64
+        readings.append(t)
+    ops += [{"op": "set_rounds", "g": 1, "r": 1}, {"op": "seek", "g": 1, "pos": h_at}, {"op": "next_u32", "g": 1}]
+
+    def foldh(tag, pool, time):
+        pos = len(readings)
+        readings.extend([time, (time + 1) & M64])
+        ops.append({"op": "seek", "g": 1, "pos": pos})
+        ops.append({"op": "set_pool", "g": 1, "pool": u64(pool)})
+        ops.append({"op": "timer_stats", "g": 1, "var": False, "tag": tag})
+    for i in range(-1, 64):
+        foldh(["lh", i], 0 if i < 0 else 1 << i, C)
+    for j in range(-1, 64):
+        foldh(["th", j], P0, 0 if j < 0 else 1 << j)
+    for k in range(min(n, 40)):
+        a, b = rng.getrandbits(64), rng.getrandbits(64)
+        for which, v in (("a", a), ("b", b), ("ab", a ^ b)):
+            foldh(["aff", "lh", k, which], v, C)
+            foldh(["aff", "th", k, which], P0, v)
     head = [{"op": "timer", "t": 1, "readings": [u64(x) for x in readings], "cont": [u64(1009)]},
             {"op": "jit_new", "g": 1, "t": 1}]
     S.case("pool map extraction", head + ops)
-    S.nx_readings = readings[nx_at[0]:]
     return S
 
 
@@ -940,6 +980,7 @@ def block_alg_corpus(kind, seed, tier, n_unit_words, long_words, salt):
         pm = isaac_premixed(bits)[:256 // bits]
         for f in (lambda w: -w, lambda w: w, lambda w: ~w, lambda w: 1 - w):
             structured.append([b for w in pm for b in (f(w) & ((1 << bits) - 1)).to_bytes(bits // 8, "little")])
+    structured += [s for s in structured_seeds(kind, rng) if s not in structured]
     for i, sd in enumerate(structured):
         S.case("%s structured %d" % (kind, i), [{"op": "from_seed", "g": 1, "kind": kind, "seed": sd},
                                                 {"op": nat, "g": 1, "n": n_unit_words}], weight=n_unit_words + 300)
@@ -961,6 +1002,13 @@ def block_alg_corpus(kind, seed, tier, n_unit_words, long_words, salt):
             ops.append({"op": nat, "g": 1, "n": n})
             left -= n
         S.case("%s long run %d" % (kind, r), ops, weight=long_words + 300)
+    # the bare core: BlockRngCore::generate called directly, block by block
+    core = {"Hc128Rng": "Hc128Core", "IsaacRng": "IsaacCore", "Isaac64Rng": "Isaac64Core"}[kind]
+    for r in range(3 if tier == "quick" else 20):
+        sd = structured[r] if r < 2 else [rng.getrandbits(8) for _ in range(32)]
+        nblk = 70 if kind == "Hc128Rng" else 3
+        S.case("%s generate %d" % (core, r), [{"op": "from_seed", "g": 1, "kind": core, "seed": sd}] + [{"op": "generate", "g": 1} for _ in range(nblk)],
+               weight=nblk * (16 if kind == "Hc128Rng" else 256) + 300)
     # volume: data-dependent faults with a probability around 2^-16 per word need a few hundred thousand words
     bulk = {"IsaacRng": (14, 20480), "Isaac64Rng": (14, 20480), "Hc128Rng": (14, 8192)}[kind] if tier == "quick" else \
            {"IsaacRng": (56, 40960), "Isaac64Rng": (56, 40960), "Hc128Rng": (56, 32768)}[kind]
@@ -1054,13 +1102,25 @@ def c08_corpus(seed, tier, adversarial):
         S.case("%s from_rng with almost-zero blocks" % kind, ops)
         # long runs of all-zero blocks: a redraw / remap must not give up after some number of them
         ops, sid = [], 1
-        for z in ((8, 64, 70) if tier == "quick" else (8, 63, 64, 65, 70, 128, 300, 1000)):
+        for z in ((8, 64, 70, 1030) if tier == "quick" else (8, 63, 64, 65, 70, 128, 300, 1000, 1023, 1024, 1030, 4000)):
             for fallible in (False, True):
                 ops.append({"op": "src", "s": sid, "bytes": src_bytes(rng, kind, z, z + 3), "fallible": fallible})
                 ops.append({"op": "try_from_rng" if fallible else "from_rng", "g": 1, "kind": kind, "s": sid})
                 ops.append({"op": nat, "g": 1, "n": 3})
                 sid += 1
         S.case("%s from_rng after many zero blocks" % kind, ops)
+        # the documented REPLACEMENT of the zero seed used as an ordinary input (seed, and block drawn from a source): it is
+        # not a zero seed - it is used verbatim, nothing is redrawn
+        ops = []
+        if kind == "XorShiftRng":
+            rep = [0xED, 0x5E, 0xAD, 0x0B] * 4
+            tail = [rng.getrandbits(8) | 1 for _ in range(3 * L)]
+            ops += [{"op": "from_seed", "g": 1, "kind": kind, "seed": rep}, {"op": nat, "g": 1, "n": 3}]
+            for fallible in (False, True):
+                ops += [{"op": "src", "s": 1 + fallible, "bytes": rep + tail, "fallible": fallible},
+                        {"op": "try_from_rng" if fallible else "from_rng", "g": 1, "kind": kind, "s": 1 + fallible}, {"op": nat, "g": 1, "n": 3}]
+            ops += [{"op": "src", "s": 3, "bytes": rep + tail, "fallible": True, "fail_at": 2}, {"op": "try_from_rng", "g": 1, "kind": kind, "s": 3}, {"op": nat, "g": 1, "n": 2}]
+            S.case("%s the replacement constant as an input" % kind, ops)
         # z all-zero blocks and then the source FAILS (at call z + 1, with and without a partial write, sticky or not):
         # no generator may come back - in particular not one built from the zero block in hand
         ops, sid = [], 1
@@ -1095,6 +1155,18 @@ def c09_corpus(seed, tier):
             ops.append({"op": "src", "s": sid, "bytes": b})
             ops += [{"op": "from_rng", "g": 1, "kind": kind, "s": sid}, {"op": nat, "g": 1, "n": 20}]
             ops += [{"op": "from_rng", "g": 2, "kind": kind, "s": sid}, {"op": nat, "g": 2, "n": 4}]
+            sid += 1
+        if kind == "XorShiftRng":
+            # very many all-zero blocks first: every one of them is redrawn, the source ends exactly one block further
+            for z in ((1030,) if tier == "quick" else (1023, 1024, 1030, 4000)):
+                for ctor, fallible in (("from_rng", False), ("try_from_rng", True)):
+                    ops += [{"op": "src", "s": sid, "bytes": [0] * (16 * z) + [rng.getrandbits(8) | 1 for _ in range(48)], "fallible": fallible},
+                            {"op": ctor, "g": 1, "kind": kind, "s": sid}, {"op": nat, "g": 1, "n": 4}]
+                    sid += 1
+        # a source delivering only zeros: an ordinary key (for ISAAC exactly from_seed([0; 32]) with two passes)
+        if kind not in LINEAR:
+            ops += [{"op": "src", "s": sid, "bytes": [0] * (2 * FROMRNG_LEN.get(kind, SEEDLEN[kind])), "fallible": False},
+                    {"op": "from_rng", "g": 1, "kind": kind, "s": sid}, {"op": nat, "g": 1, "n": 6}]
             sid += 1
         S.case("%s from_rng" % kind, ops, weight=len(ops) * (150 if kind in heavy else 5))
         # try_from_rng with failing sources
@@ -1181,6 +1253,27 @@ def suffix_ops(kind, rng, blockbytes):
         ops += [("jump", 0), ("next_u64", 0), ("long_jump", 0), ("next_u32", 0), ("fill_bytes", 9)]
     ops += [("next_u32", 0), ("next_u32", 0), ("next_u64", 0)]
     return ops
+
+
+def mixed_value_corpus(kind, seed, tier):
+    """histories mixing next_u32 / next_u64 / fill_bytes with clone and clone_from onto a generator in another phase,
+    validated against the composed model with VALUES (Trace_Full): the word stream stays the algorithm's keystream
+    through every such history"""
+    rng = random.Random(seed * 1000003 + 4242 + len(kind))
+    S = Sched()
+    bb = {"Hc128Rng": 64, "IsaacRng": 1024, "Isaac64Rng": 2048}.get(kind)
+    for r in range(3 if tier == "quick" else 20):
+        sd = [rng.getrandbits(8) for _ in range(SEEDLEN[kind])]
+        sd2 = [rng.getrandbits(8) for _ in range(SEEDLEN[kind])]
+        ops = [{"op": "from_seed", "g": 1, "kind": kind, "seed": sd}, {"op": "from_seed", "g": 2, "kind": kind, "seed": sd2}]
+        ops += [opj(e, 1) for e in random_walk(rng, 6, WORDBYTES[kind], bb)]
+        ops += [opj(e, 2) for e in random_walk(rng, 3 + r, WORDBYTES[kind], bb)]
+        ops += [{"op": "clone", "g": 1, "to": 3}, {"op": "clone_from", "g": 2, "from": 1}]
+        for g in (1, 2, 3):
+            ops += [opj(e, g) for e in random_walk(rng, 5, WORDBYTES[kind], bb)]
+        ops += [opj(("fill_bytes", 0), 1), opj(("next_u32", 0), 1), opj(("fill_bytes", (bb or 8) * 2 + 1), 2), opj(("next_u32", 0), 2), opj(("next_u64", 0), 3)]
+        S.case("%s mixed history with clone / clone_from #%d" % (kind, r), ops, weight=300 + (bb or 0))
+    return S
 
 
 def far_corpus(seed, tier, quick_kinds=None):
@@ -1331,7 +1424,13 @@ def c10_corpus(seed, tier, node_paths_by_kind):
             ops += [{"op": "from_seed", "g": 3, "kind": kind, "seed": sd}, {"op": "from_seed", "g": 4, "kind": kind, "seed": sd},
                     {"op": "generate", "g": 4}, {"op": "eq", "a": 3, "b": 4}]
             ops += lockstep([("generate", 0)], [3, 4])
-            S.case("%s clone/eq #%d" % (kind, r), ops, weight=200)
+            # Clone::clone_from onto a core that has produced another number of blocks (from another seed)
+            ops += [{"op": "from_seed", "g": 7, "kind": kind, "seed": [rng.getrandbits(8) for _ in range(32)]}]
+            ops += [{"op": "generate", "g": 7} for _ in range(1 + r % 3)]
+            ops += [{"op": "clone_from", "g": 7, "from": 1}, {"op": "eq", "a": 1, "b": 7}]
+            ops += lockstep([("generate", 0), ("generate", 0)], [1, 7])
+            ops += [{"op": "eq", "a": 1, "b": 7}]
+            S.case("%s clone/eq #%d" % (kind, r), ops, weight=300)
     return S
 
 
@@ -1403,10 +1502,12 @@ def c11_corpus(seed, tier, node_paths_by_kind):
 
     def snap_ops(kind, pre, blockbytes):
         ops = pre + [{"op": "clone", "g": 1, "to": 4}, {"op": "ser", "g": 1},
-                     {"op": "de", "g": 1, "to": 2, "fmt": "bincode"}, {"op": "de", "g": 1, "to": 3, "fmt": "json"}]
+                     {"op": "de", "g": 1, "to": 2, "fmt": "bincode"}, {"op": "de", "g": 1, "to": 3, "fmt": "json"},
+                     # a snapshot OF the restored generator, before anything else touched it (second generation)
+                     {"op": "ser", "g": 2}, {"op": "de", "g": 2, "to": 6, "fmt": "bincode"}]
         if kind in HAS_EQ:
             ops += [{"op": "eq", "a": 1, "b": 2}, {"op": "eq", "a": 1, "b": 3}]
-        ops += lockstep(suffix_ops(kind, rng, blockbytes), [1, 4, 2, 3])
+        ops += lockstep(suffix_ops(kind, rng, blockbytes), [1, 4, 2, 3, 6])
         if kind in HAS_EQ:
             ops += [{"op": "eq", "a": 1, "b": 2}, {"op": "eq", "a": 2, "b": 3}]
         # snapshot of the restored generator again (round trip of a round trip)
@@ -1485,7 +1586,9 @@ def c17_corpus(seed, tier, walks_by_kind):
             for e in w:
                 ops.append(opj(e, g))
                 ops.append({"op": "debug", "g": g})
-            ops += [{"op": "timer_stats", "g": g, "var": True}, {"op": "debug", "g": g}]
+            ops += [{"op": "timer_stats", "g": g, "var": True}, {"op": "debug", "g": g}, {"op": "timer_stats", "g": g, "var": False}, {"op": "debug", "g": g},
+                    {"op": "test_timer", "g": g}, {"op": "debug", "g": g}, {"op": "next_u32", "g": g}, {"op": "debug", "g": g},
+                    {"op": "clone", "g": g, "to": g + 30}, {"op": "debug", "g": g + 30}]
         S.case("JitterRng debug walk #%d" % wi, ops)
     return S
 
@@ -1615,4 +1718,6 @@ def c18_corpora(seed, tier):
         jit.case(c["label"], c["ops"], c["weight"])
     for c in c13_corpus(seed, "quick", [{"mean": m, "zr": False, "zd": False, "back": 0, "mod": 0, "stuck": 0} for m in (1, 2, 3, 15, 16, 1 << 20, (1 << 31) + 5, 1 << 32)]).cases:
         jit.case(c["label"], c["ops"], c["weight"])
-    return {"alg": alg, "api": api, "jit": jit, "far": far_corpus(seed, tier)}
+    jl = Sched()
+    stuck_run_cases(jl, rng, (66000,), 3)
+    return {"alg": alg, "api": api, "jit": jit, "far": far_corpus(seed, tier), "jitlong": jl}
